@@ -103,7 +103,8 @@ func scenarios() []*scenario {
 		{ // ring built with NewCustomConsistentHash(50, nil): replicas raised to minReplicas
 			Name: "ring50", RingReplicas: 50,
 			Nodes: []nodeSpec{{"a", "a", "a"}, {"b", "b", "b"}, {"c", "c", "c"}},
-			Rs:    stdRs, Ws: stdWs, DepthQuick: 4, DepthThorough: 4,
+			// negative replica counts / weights ("every replica count and weight"): a member without virtual nodes
+			Rs: []int{1, 50, 100, 150, -1}, Ws: []int{0, 1, 50, 100, 200, -5}, DepthQuick: 4, DepthThorough: 4,
 		},
 		{ // representations where one is another plus digits: virtual-node labels repr+itoa(i) overlap
 			// ("a"+"10" == "a1"+"0") under the DEFAULT hash — inside the quantifier
